@@ -1008,12 +1008,6 @@ impl Subject for LevelSubject {
                 vio(&mut out, format!(
                     "C07 update result / effect differs from the specification: {}; state before: {}",
                     disagreements.join(" | "), e.pre.describe()));
-            } else if ck.c02 && matches!(op, Op::Match(_)) && cfg.variants.len() == 1 {
-                // the tracking variant mirrors the implementation's known queue discipline, so a
-                // difference here is a difference in quantities / makers (accounting)
-                vio(&mut out, format!(
-                    "C02 match result differs from the reference model: {}; state before: {}",
-                    disagreements.join(" | "), e.pre.describe()));
             }
             out.extend = false;
         }
